@@ -619,6 +619,12 @@ func c06Cross(e *Env, archs []model.Arch, wr *rand.Rand, path, who string, wantM
 				// a window reaching back to the seventies selects the coarsest archive
 				from, until = lr.wr.Int64N(1000000), now
 			}
+			if from < 0 {
+				from = 0 // the retention reaches back beyond the epoch
+			}
+			if until < from {
+				until = from
+			}
 			if model.Floor(from, a.S) == model.Floor(until, a.S) {
 				e.Note("c06-degenerate-window-skipped")
 				continue
